@@ -1,25 +1,27 @@
 /*@unit {
- 'kind': 'proof', 'mode': 'legacy', 'timeout': 20,
+ 'kind': 'proof', 'mode': 'legacy', 'timeout': 100,
  'functions': ['ring_write', 'ring_putc', 'ring_full', 'ring_move_head_one'],
- 'params': {'PART': [1, 2]},
+ 'params': {'PART': [1, 2, 3]},
  'clauses': 'for every RING(r), every buffer content, every source block of n bytes (n symbolic, loop closed by an injected invariant, ring_putc inlined as it is): returns min(n, room); head advances by that many single steps, tail and size unchanged, RING(r) preserved; buffer slot j holds source byte dist(old head, j) if that is below the result and its old value otherwise (PART 1: j arbitrary = exact frame, PART 2: j = slot(tail, k) = view\' is view followed by the accepted prefix of the source, every old element kept); reads only src[0..n), writes only inside the size-byte buffer',
  'inject': [{'file': 'igris/datastruct/ring.h', 'func': 'ring_write', 'loop': 0, 'expect': 'size--',
              'assigns': 'size, data, ret, r->head, __CPROVER_object_whole(buffer)',
              'invariants': ['0 <= ret && (unsigned int)ret <= g_n && size == g_n - (unsigned int)ret',
-                            '(unsigned int)ret <= g_room0',
+                            'g_len0 + (unsigned int)ret <= g_rsize - 1',
                             'data == g_data0 + ret',
                             'r->size == g_rsize && r->tail == g_tail0',
-                            'r->head == SPEC_RING_SLOT(g_head0, (unsigned int)ret, g_rsize)',
-                            'g_d < (unsigned int)ret ? buffer[g_j] == g_dv : buffer[g_j] == g_vj'],
+                            'r->head == SPEC_RING_SLOT(g_tail0, g_len0 + (unsigned int)ret, g_rsize)',
+                            '(g_p >= g_len0 && g_p - g_len0 < (unsigned int)ret) ? buffer[g_j] == g_dv : buffer[g_j] == g_vj'],
              'decreases': 'size'}],
  'assumptions': ['RING(r)', 'buffer is an object of exactly r->size bytes, data an object of exactly n bytes',
                  'r->size <= 2^31 for ring_write/ring_read: the result type is int, so a count above INT_MAX cannot be reported (ret++ would overflow)'],
  'witness': {'unwind': 8},
 } @*/
 #include "c03_ring.h"
-/* ghosts: entry values, one arbitrary buffer slot g_j with its old content g_vj, its forward
-   distance g_d from the old head and the source byte g_dv that belongs there */
-uint g_n, g_head0, g_tail0, g_rsize, g_room0, g_j, g_d;
+/* ghosts: entry values; everything is expressed in positions counted from the (fixed) tail:
+   the head is at position len0 + ret; one arbitrary position g_p < size, its slot
+   g_j = slot(tail, g_p), the old content g_vj of that slot and the source byte g_dv = src[g_p - len0]
+   that belongs there once it is written */
+uint g_n, g_tail0, g_rsize, g_len0, g_j, g_p;
 const char *g_data0;
 char g_vj, g_dv;
 #include <igris/datastruct/ring.h>
@@ -30,8 +32,7 @@ void harness(void)
     WIT(uint, head);
     WIT(uint, tail);
     WIT(uint, n);
-    WIT(uint, k);              /* ghost index into the view  (PART 2) */
-    WIT(uint, j);              /* ghost index into the buffer (PART 1) */
+    WIT(uint, k);              /* ghost position counted from the tail: every slot is slot(tail, k) for one k < size */
     WIT_ARR(char, content, 6);
     WIT_ARR(char, src, 6);
     __CPROVER_assume(size >= 2 && size <= VC_MAXOBJ && size <= 0x80000000u && head < size && tail < size);
@@ -44,35 +45,29 @@ void harness(void)
     FILL(data, (size_t)n, src);
     uint len = spec_ring_len(head, tail, size);
     uint room = size - 1 - len;
-#if PART == 2
-    __CPROVER_assume(k <= size - 1);
-    j = spec_ring_slot(tail, k, size);
-#else
-    __CPROVER_assume(j < size);
-#endif
-    g_n = n; g_head0 = head; g_tail0 = tail; g_rsize = size; g_room0 = room; g_data0 = data;
-    g_j = j; g_vj = buf[j]; g_d = spec_ring_dist(head, j, size); g_dv = g_d < n ? data[g_d] : 0;
+    __CPROVER_assume(k < size);
+    uint j = spec_ring_slot(tail, k, size);
+    g_n = n; g_tail0 = tail; g_rsize = size; g_len0 = len; g_data0 = data;
+    g_p = k; g_j = j; g_vj = buf[j]; g_dv = (k >= len && k - len < n) ? data[k - len] : 0;
     WIT(uint, m);              /* ghost index into the source */
     char old_m = m < n ? data[m] : 0;
 
     int ret = ring_write(&r, buf, data, n);
 
     uint want = n < room ? n : room;
-    __CPROVER_assert(ret >= 0 && (uint)ret == want, "ring_write returns min(n, room)");
-    __CPROVER_assert(r.size == size && r.tail == tail && C03_RING_INV(r), "ring_write preserves RING(r), size and tail");
-    __CPROVER_assert(r.head == spec_ring_slot(head, want, size), "ring_write: head advanced by the number of bytes accepted");
-    __CPROVER_assert(spec_ring_len(r.head, r.tail, r.size) == len + want, "ring_write: reference length grows by the result");
-    __CPROVER_assert(!(m < n) || data[m] == old_m, "ring_write does not modify the source");
-#if PART == 2
-    if (k < len)
-        __CPROVER_assert(buf[spec_ring_slot(r.tail, k, size)] == g_vj, "ring_write: every old element keeps position and value");
-    else if (k < len + want)
-        __CPROVER_assert(buf[spec_ring_slot(r.tail, k, size)] == g_dv && g_d == k - len, "ring_write: element len+i of the new view is source byte i");
-#else
-    if (g_d < want)
-        __CPROVER_assert(buf[j] == g_dv, "ring_write: slot old head + i holds source byte i, i < result");
-    else
-        __CPROVER_assert(buf[j] == g_vj, "ring_write: no other buffer byte is changed");
-#endif
+    P1(__CPROVER_assert(ret >= 0 && (uint)ret == want, "ring_write returns min(n, room)");)
+    P1(__CPROVER_assert(r.size == size && r.tail == tail && C03_RING_INV(r), "ring_write preserves RING(r), size and tail");)
+    P3(__CPROVER_assert(r.head == spec_ring_slot(head, want, size), "ring_write: head advanced by the number of bytes accepted");)
+    P1(__CPROVER_assert(!(m < n) || data[m] == old_m, "ring_write does not modify the source");)
+    P2(__CPROVER_assert(spec_ring_len(r.head, r.tail, r.size) == len + want, "ring_write: reference length grows by the result");)
+    /* k is an arbitrary position counted from the tail, j = slot(tail, k) its slot: k < len are the
+       old elements, len <= k < len + result the new ones, the rest is outside the new view */
+    if (k < len) {
+        P1(__CPROVER_assert(buf[spec_ring_slot(r.tail, k, size)] == g_vj, "ring_write: every old element keeps position and value");)
+    } else if (k - len < want) {
+        P1(__CPROVER_assert(buf[spec_ring_slot(r.tail, k, size)] == g_dv, "ring_write: element len+i of the new view is source byte i, i < result");)
+    } else {
+        P1(__CPROVER_assert(buf[j] == g_vj, "ring_write: no buffer byte outside the accepted block is changed");)
+    }
     CANARY("ring_write end reachable");
 }
